@@ -541,6 +541,9 @@ def run(ck, facts):
     import c12
     sub_w = C.SubCheck(ck, "R3", "", ["R6"])
     c12.run(sub_w, facts)
+    # ... and write_str never copies into a buffer that was not grown: the failed-grow edge stores the flag and returns (C12.R1-R3), the Rust-owned writer publishes
+    # the capacity it allocated (C12.R10)
+    c12.run(C.SubCheck(ck, "R3", "", ["R1", "R2", "R3", "R10"], key_re=r"write_str|create/"), facts)
     # diplomat_alloc / diplomat_free build their Layout from exactly the caller's (size, align): Rust-side Box<[T]> / Box<str> owners release foreign-allocated buffers, and
     # diplomat_free releases Rust-allocated ones, with the layout of the element type (C16.R4)
     import c16
